@@ -268,6 +268,33 @@ def r16_4b(ctx):
     ctx.floor("R16.4b", n, 1, "renderers with a fallback generator")
 
 
+def r16_4c(ctx):
+    """The stdlib flattens a multipart by *cloning* the generator for every sub-part, and it relies on the clone carrying the
+    parent's settings - in particular the policy: while it renders a multipart/signed it switches header re-folding off on
+    the parent and expects the sub-part generators to inherit that.  Every clone() of the generators in generator.py therefore
+    builds `self.__class__(fp, self._mangle_from_, None, ..., policy=self.policy)`; a clone without the policy re-folds the
+    long header lines of signed parts - BODY[] no longer returns what was stored."""
+    p = ctx.p
+    n = 0
+    for fi in p.funcs_in("generator"):
+        if fi.name != "clone":
+            continue
+        ctx.analysed(fi)
+        n += 1
+        cons = [c for c in calls_in(fi.node) if norm(c.func) in ("self.__class__", "type(self)")]
+        okv = bool(cons)
+        for c in cons:
+            kw = {k.arg: norm(k.value) for k in c.keywords}
+            pos = [norm(a) for a in c.args]
+            if kw.get("policy") != "self.policy" or len(pos) < 2 or pos[1] != "self._mangle_from_":
+                okv = False
+        if okv:
+            ctx.ok("R16.4", where(fi), "clone() hands the parent's policy and From-mangling setting to the sub-part generator")
+        else:
+            ctx.bad("R16.4", fi.module, fi.qual, norm(cons[0], 100) if cons else "clone()", "clone() no longer builds the sub-part generator with the parent's policy / mangle setting: sub-parts are rendered under the default policy (long headers of multipart/signed parts are re-folded, `filename=` becomes RFC 2231 continuations) - BODY[], RFC822 and BODY[TEXT] differ from the stored message", fi.node.lineno)
+    ctx.floor("R16.4c", n, 3, "clone() methods of the generators")
+
+
 def r16_5(ctx):
     from .common import pm_of
 
@@ -371,6 +398,7 @@ def run(ctx):
     ctx.do(r16_3)
     ctx.do(r16_4)
     ctx.do(r16_4b)
+    ctx.do(r16_4c)
     ctx.do(r16_5)
     ctx.do(r16_6)
     from . import c08
